@@ -525,22 +525,27 @@ def r_continue(text, ctx):
 
 def closure_fn(u, path, block, fn_name, let_pat, new_name, owner, **kw):
     """R-closure: a closure bound by `let f = |params| { BODY };` inside fn `fn_name` is verified as a function of its parameters
-    (+ &self, the only capture); registered as a virtual source so that the usual extraction applies to its text."""
-    src = u.src(path)
-    blk = rl.find_block(path, src, block)[0]
-    it = rl.find_fn(path, src, blk, fn_name)
-    i = it.text.find(let_pat)
-    if i < 0:
-        raise rl.LostAnchor("%s: closure `%s` not found in fn %s" % (path, let_pat, fn_name))
-    m = re.match(r"let \w+ = \|([^|]*)\|\s*", it.text[i:])
-    if not m:
-        raise rl.LostAnchor("%s: `%s` is not a closure binding" % (path, let_pat))
-    rest = it.text[i + m.end():]
-    toks = rl.code_toks(rl.lex(rest))
-    if toks[0].text != "{":
-        raise rl.Unsupported("closure body is not a block")
-    close = rl.match_close(toks, 0)
-    body = rest[toks[0].start:toks[close].end]
+    (+ &self, the only capture); registered as a virtual source so that the usual extraction applies to its text.
+    If the closure is gone (a refactoring) only THIS item leaves the unit's reach: it is recorded as stubbed (its properties undecided)."""
+    try:
+        src = u.src(path)
+        blk = rl.find_block(path, src, block)[0]
+        it = rl.find_fn(path, src, blk, fn_name)
+        i = it.text.find(let_pat)
+        if i < 0:
+            raise rl.LostAnchor("%s: closure `%s` not found in fn %s" % (path, let_pat, fn_name))
+        m = re.match(r"let \w+ = \|([^|]*)\|\s*", it.text[i:])
+        if not m:
+            raise rl.LostAnchor("%s: `%s` is not a closure binding" % (path, let_pat))
+        rest = it.text[i + m.end():]
+        toks = rl.code_toks(rl.lex(rest))
+        if toks[0].text != "{":
+            raise rl.Unsupported("closure body is not a block")
+        close = rl.match_close(toks, 0)
+        body = rest[toks[0].start:toks[close].end]
+    except (rl.LostAnchor, rl.Unsupported) as e:
+        u.stubbed[kw.get("key") or new_name] = {"reason": "%s: %s" % (type(e).__name__, e), "props": list(kw.get("props") or []), "fname": new_name}
+        return
     vp = "%s#closure(%s)@%d" % (path, fn_name, src.count("\n", 0, it.start + i) + 1)
     u._src_cache[vp] = "impl %s {\n    fn %s(&self, %s) %s\n}\n" % (owner, new_name, m.group(1).strip(), body)
     u.fn(vp, "impl " + owner, new_name, vpath="%s::%s" % (owner, new_name), **kw)
